@@ -136,7 +136,7 @@ func (g *G) unquoted() string {
 	s := ""
 	for i := 0; i < n; i++ {
 		s += g.pick(words)
-		if g.R.Intn(6) == 0 {
+		if g.R.Intn(14) == 0 {
 			s += g.pick([]string{"\\n", "\\\"", "\\\\", "\\#", "\\:", "\\.", "\\;", "\\x", "\\\n  ", "-", "*", " "})
 		}
 	}
